@@ -157,6 +157,11 @@ def main():
     if len(configs) % 2 == 0:
         configs.append(("npy", None, "f64", False, 1, False))
     configs.append(("npy", None, "f64", True, 2, True))       # odd index: filtered, planetary, through the Builder
+    # clobbering re-sample with a format override over a directory full of earlier tiles, the new map undefined on the southern sky: the
+    # tiles that are entirely undefined now must disappear, in the format being written
+    forced_south = {len(configs), len(configs) + 1}
+    configs.append(("png", "fits", "f64", False, 2, False))
+    configs.append(("npy", "fits", "f32", False, 2, True))
     try:
         for ci, (dflt, ov, kind, filtered, depth, planetary) in enumerate(configs):
             cs = CS.PLANETARY if planetary else CS.ASTRONOMICAL
@@ -173,7 +178,7 @@ def main():
             else:
                 acc = None
                 leaves = [(depth, x, y) for y in range(2 ** depth) for x in range(2 ** depth)]
-                passes = [Sampler(kind, rng.choice([None, "south"]) if kind != "rgb" else None, salt=3)]
+                passes = [Sampler(kind, ("south" if ci in forced_south else rng.choice([None, "south"])) if kind != "rgb" else None, salt=3)]
             results = {}
             for par in (1, 3):
                 base = os.path.join(root, f"c{ci}_p{par}")
@@ -186,7 +191,9 @@ def main():
                     junk = np.full((256, 256), 7.0) if kind != "rgb" else np.full((256, 256, 3), 9, dtype=np.uint8)
                     with warnings.catch_warnings():
                         warnings.simplefilter("ignore")
-                        pio0.write_image(Pos(*leaves[0]), Image.from_array(junk), format=wf)
+                        # … at every leaf position, so that a tile the new sampler leaves entirely undefined must actually be removed
+                        for lf in leaves:
+                            pio0.write_image(Pos(*lf), Image.from_array(junk.copy()), format=wf)
                 # every other configuration goes through the Builder entry point (`toast_base`), which decides the coordinate system
                 # from `is_planet` and hands everything else on
                 via_builder = ci % 2 == 1
@@ -281,6 +288,50 @@ def main():
             diff_streams(h, "stored-pixels", lines, py, out)
         except Exception as e:
             h.corr_fail("stored-pixels", {"error": str(e)[-800:]})
+        # ---- the command line: `toasty tile-allsky --projection P` fills every tile with the values of P's sampler at the tile's own
+        # pixel centres in P's coordinate system (sky maps: astronomical; planet maps: planetary; a panorama is a sky map)
+        try:
+            from toasty import cli, samplers as SM
+            from PIL import Image as PImage
+            import contextlib
+            import io as _io
+            skyimg = np.random.RandomState(11).randint(1, 255, size=(24, 48, 3)).astype(np.uint8)
+            srcp = os.path.join(root, "cli_sky.png")
+            PImage.fromarray(skyimg, "RGB").save(srcp)
+            table = {"plate-carree": (SM.plate_carree_sampler, False), "plate-carree-galactic": (SM.plate_carree_galactic_sampler, False),
+                     "plate-carree-ecliptic": (SM.plate_carree_ecliptic_sampler, False), "plate-carree-planet": (SM.plate_carree_planet_sampler, True),
+                     "plate-carree-planet-zeroleft": (SM.plate_carree_planet_zeroleft_sampler, True), "plate-carree-planet-zeroright": (SM.plate_carree_zeroright_sampler, True),
+                     "plate-carree-panorama": (SM.plate_carree_sampler, False)}
+            projs = list(table) if h.deep else ["plate-carree-panorama", "plate-carree-planet", "plate-carree-galactic", "plate-carree-ecliptic"]
+            for proj in projs:
+                mk, planet = table[proj]
+                cs_ = CS.PLANETARY if planet else CS.ASTRONOMICAL
+                outd = os.path.join(root, "cli_" + proj)
+                with warnings.catch_warnings():
+                    warnings.simplefilter("ignore")
+                    with contextlib.redirect_stdout(_io.StringIO()), contextlib.redirect_stderr(_io.StringIO()):
+                        cli.entrypoint(["tile-allsky", "--outdir", outd, "--placeholder-thumbnail", "--projection", proj, "--parallelism", "1", srcp, "1"])
+                    smp_ = mk(skyimg)
+                    badc = None
+                    for (x, y) in ((0, 0), (1, 0), (0, 1), (1, 1)):
+                        lon_, lat_ = toast.toast_tile_get_coords(toast.create_single_tile(Pos(1, x, y), coordsys=cs_))
+                        want_ = smp_(lon_, lat_)
+                        pth_ = os.path.join(outd, "1", str(y), f"{y}_{x}.png")
+                        if not os.path.exists(pth_):
+                            badc = f"tile (1,{x},{y}) was not written"
+                            break
+                        got_ = np.array(PImage.open(pth_))[..., :3]
+                        ne_ = np.any(got_ != want_, axis=2)
+                        if ne_.mean() > 0.002:          # a handful of pixels may sit on a cell boundary of the 48x24 map
+                            badc = f"tile (1,{x},{y}): {int(ne_.sum())} of 65536 pixels are not the value of the {proj} sampler at the pixel's {'planetary' if planet else 'astronomical'} coordinates"
+                            break
+                h.case(("cli-allsky", proj))
+                h.count("runs", "cli/" + proj)
+                if badc:
+                    h.violation("cli:tile-allsky", f"`toasty tile-allsky --projection {proj}` at depth 1: {badc}", input={"projection": proj}, observed=badc)
+        except BaseException as e:  # noqa
+            import traceback
+            h.violation("cli:crash", f"`toasty tile-allsky` raised {type(e).__name__}: {e}", input="tile-allsky", observed=traceback.format_exc()[-500:])
     finally:
         shutil.rmtree(root, ignore_errors=True)
     return h.finish()
